@@ -176,6 +176,31 @@ func VerifC03UnrotatedText(blocks []map[string]VerifC03Cmi, col string, keys map
 	return res
 }
 
+// VerifC03UnrotatedTextCols: DoCMICheckForUnrotated for a leaf query as the search node holds it (parameters derived
+// from the query as extractUnrotatedSSRFromCondition does); returns, per surviving block, the columns the check
+// recorded (the candidate columns of an all-column equality).
+func VerifC03UnrotatedTextCols(blocks []map[string]VerifC03Cmi, q *structs.SearchQuery) map[uint16][]string {
+	usi := &UnrotatedSegmentInfo{isCmiLoaded: true, unrotatedBlockCmis: VerifC03Containers(blocks), allColumns: map[string]bool{}}
+	for _, b := range blocks {
+		usi.blockSummaries = append(usi.blockSummaries, &structs.BlockSummary{LowTs: 10, HighTs: 20, RecCount: 1})
+		for c := range b {
+			usi.allColumns[c] = true
+		}
+	}
+	rangeFilter, rangeOp, isRange := q.ExtractRangeFilterFromQuery(0)
+	keys, orig, wildVal, bop := q.GetAllBlockBloomKeysToSearch()
+	tf, _, _, _ := usi.DoCMICheckForUnrotated(q, &dtu.TimeRange{StartEpochMs: 1, EndEpochMs: 100}, structs.InitEntireFileBlockTracker(),
+		keys, orig, bop, rangeFilter, rangeOp, isRange, wildVal, 0)
+	res := map[uint16][]string{}
+	for k, cols := range tf {
+		res[k] = []string{}
+		for c := range cols {
+			res[k] = append(res[k], c)
+		}
+	}
+	return res
+}
+
 // the micro index one block of an open segment holds for a column: Kind 0 none, 1 bloom, 2 range
 type VerifC03BlockRange struct {
 	Seg   string
